@@ -26,10 +26,10 @@
      or_grouping l e    e is the chain  p1 or ... or pk  of the clauses l = [p1..pk] written with any of its consecutive
                         sub-chains in parentheses, to any depth (and_grouping: the same for `and`); the clauses are
                         arbitrary primaries - in the check real comparisons of one operator shape on different symbols. *)
-From Coq Require Import List NArith Bool.
+From Coq Require Import List NArith Bool Permutation.
 From Storage Require Import Base.Bytes Lang.Tokens Lang.Lexer Lang.BoolGrammar Lang.Listener Lang.BoolSurface
   Lang.BoolGrammarProofs Lang.LexerProofs Lang.C12Proofs Lang.Regex Lang.LexerFull Lang.WordOps Lang.WordOpsProofs Lang.WordOpsLexProofs
-  Lang.BoolRows Lang.C12W3Proofs Lang.ChainGroupings Lang.C12W5Proofs.
+  Lang.BoolRows Lang.C12W3Proofs Lang.ChainGroupings Lang.C12W5Proofs Lang.C12W7Proofs.
 Import ListNotations.
 
 (* every skeleton, in every token spelling, is accepted and evaluates to its or-of-ands meaning:
@@ -259,3 +259,30 @@ Theorem one_clause_decides : forall (Row : Type) (val : Row -> str -> bool) l e 
   (and_grouping l e -> semP p (val r) = false -> eval b (val r) = false).
 Proof. exact one_clause_lemma. Qed.
 Print Assumptions one_clause_decides.
+
+(* ---- after seeded changes C12-w7-2 / C12-w7-3: the operands of a chain in any ORDER ------------------------------------
+   The clauses of an or-chain (and-chain) written in any order, each order in any grouping: BOTH filters are accepted
+   (compile returns a tree - acceptance does not depend on where an operand stands) and they have the same truth
+   function; on every table they select the same rows.  The operands are arbitrary primaries (in the check: atoms
+   that contain sub-queries nested 2-3 levels, and parenthesised skeletons over them). *)
+Theorem chain_in_any_order : forall (Row : Type) (rows : list Row) (val : Row -> str -> bool) l1 l2 e1 e2 ts1 ts2,
+  Permutation l1 l2 ->
+  (or_grouping l1 e1 /\ or_grouping l2 e2) \/ (and_grouping l1 e1 /\ and_grouping l2 e2) ->
+  spells_filter e1 ts1 -> spells_filter e2 ts2 ->
+  exists b1 b2, compile fixed_prec ts1 = Some b1 /\ compile fixed_prec ts2 = Some b2 /\
+    (forall rho, eval b1 rho = eval b2 rho) /\
+    select rows (fun r => eval b1 (val r)) = select rows (fun r => eval b2 (val r)).
+Proof. exact any_order_lemma. Qed.
+Print Assumptions chain_in_any_order.
+
+(* `p and q` / `q and p`, `p or q` / `q or p` for arbitrary primaries p, q (atoms or parenthesised skeletons): all four
+   are accepted, the two orders agree, and the value is the conjunction / disjunction of the operands' own values *)
+Theorem operands_commute : forall p q ts1 ts2 ts3 ts4,
+  spells_filter (EAnd p (ELast q)) ts1 -> spells_filter (EAnd q (ELast p)) ts2 ->
+  spells_filter (EOr p (ELast q)) ts3 -> spells_filter (EOr q (ELast p)) ts4 ->
+  exists b1 b2 b3 b4, compile fixed_prec ts1 = Some b1 /\ compile fixed_prec ts2 = Some b2 /\
+    compile fixed_prec ts3 = Some b3 /\ compile fixed_prec ts4 = Some b4 /\
+    forall rho, eval b1 rho = eval b2 rho /\ eval b3 rho = eval b4 rho /\
+                eval b1 rho = semP p rho && semP q rho /\ eval b3 rho = semP p rho || semP q rho.
+Proof. exact commute_lemma. Qed.
+Print Assumptions operands_commute.
